@@ -184,23 +184,39 @@ def pack_probe(framing):
     return rows
 
 
-def session_streams():
-    """(lose, g, [item kinds]) -> stream; items keep the framer in sync (no payload behind a
-    rejected header)"""
-    mp, mb = 4, 4
-    items = {
+SESS_LIMITS = (4, 4)
+LATE = 0.0025
+PROBE_FATALS = 40
+
+
+def _sess_items():
+    return {
         'm': lambda i: mk_frame(GRID_MAGIC, b'm%d' % i, bytes([i, i])),
         'c': lambda i: mk_header(GRID_MAGIC, b'c%d' % i, 1, bytes(4)) + b'\x55',
         # (commands that are not valid UTF-8 / ASCII: the handlers must cope with any bytes)
         'g': lambda i: mk_header(b'\xa1\xb2\xc3\xd5', b'g\xff%d' % i, 0, dsha4(b'')),
         's': lambda i: mk_header(GRID_MAGIC, b'\xfes%d' % i, 5, bytes(4)),
     }
+
+
+def grace_probe_stream():
+    """PROBE_FATALS bad-magic headers and a valid message: how many of them does a session count
+    before the transport has reported the loss?"""
+    items = _sess_items()
+    return b''.join(items['g'](i % 10) for i in range(PROBE_FATALS)) + mk_frame(GRID_MAGIC, b'end', b'')
+
+
+def session_streams(g_soon, g_late):
+    """(mp, mb, lose, g, stream); items keep the framer in sync (no payload behind a rejected
+    header)"""
+    mp, mb = SESS_LIMITS
+    items = _sess_items()
     seqs = [''.join(t) for k in (1, 2, 3) for t in itertools.product('mcgs', repeat=k)]
     seqs += ['gggg', 'sgsgs', 'mgmsmgm', 'ssssss']
     rows = []
     for seq in seqs:
         stream = b''.join(items[k](i) for i, k in enumerate(seq)) + mk_frame(GRID_MAGIC, b'end', b'')
-        for lose, g in ((0, 0), (0.0025, 2), (None, G_NEVER)):
+        for lose, g in ((0, g_soon), (LATE, g_late), (None, G_NEVER)):
             rows.append((mp, mb, lose, g, stream))
     return rows
 
@@ -239,8 +255,17 @@ def extract(repo):
             out = await c07_fake.recv_outcomes(
                 framing, c07_fake.new_framer(framing, GRID_MAGIC, mp, mb), [stream])
             grid.append((mp, mb, stream, _enc(out)))
+        # how many further magic/size errors the loop processes before a loss that is reported
+        # at once / LATE seconds after close() reaches it (it sleeps a little after each one):
+        # measured, not assumed - the text says nothing about that timing
+        grace = {}
+        for lose in (0, LATE):
+            obs = await c07_fake.sess_observe(
+                mods, c07_fake.new_framer(framing, GRID_MAGIC, *SESS_LIMITS), [grace_probe_stream()],
+                kind='client', lose=lose)
+            grace[lose] = G_NEVER if obs['errors'] >= PROBE_FATALS else max(0, obs['errors'] - 1)
         sess = []
-        for mp, mb, lose, g, stream in session_streams():
+        for mp, mb, lose, g, stream in session_streams(grace[0], grace[LATE]):
             outs = await c07_fake.recv_outcomes(
                 framing, c07_fake.new_framer(framing, GRID_MAGIC, mp, mb), [stream])
             obs = await c07_fake.sess_observe(
@@ -248,8 +273,8 @@ def extract(repo):
                 kind='client', lose=lose)
             sess.append((g, _enc(outs), obs['errors'], obs['closed'],
                          [(list(c), list(p)) for c, p in obs['delivered']]))
-        return first, grid, sess
-    first, grid, sess = _run(probes())
+        return first, grid, sess, grace
+    first, grid, sess, grace = _run(probes())
 
     ftab = frame_table(framing)
     pprobe = pack_probe(framing)
@@ -278,6 +303,9 @@ def extract(repo):
         'pack_probe': [(n, code, list(b)) for n, code, b in pprobe],
         'sess_table': sess,
         'g_never': G_NEVER,
+        'g_soon': grace[0],
+        'g_late': grace[LATE],
+        'late_delay': LATE,
         'costs': {k: getattr(c, 'cost', None) for k, c in classes.items()},
         'default_framer': default_framer,
         # whole classes: a drift (also an extracted helper) selects the deeper exploration
@@ -344,10 +372,16 @@ def render(f):
         '/-- (n, code, bytes): `frame((b"p", payload))` for a payload whose `len()` is n (and whose\n'
         '    content is empty); empty when frame() does not consult `len()` -/\n'
         f'noncomputable def packProbe : List (Nat × Nat × List UInt8) := [\n  {packs}]\n'
+        '/-- how many further magic/size errors a session counted (on a stream of 40 of them) before\n'
+        '    a loss reported at once / 2.5 ms after `close()` reached its read loop (measured: the\n'
+        '    property text says nothing about this timing); gNever stands for "all of them" -/\n'
+        f'def gSoon : Nat := {f["g_soon"]}\n'
+        f'def gLate : Nat := {f["g_late"]}\n'
+        f'def gNever : Nat := {f["g_never"]}\n'
         '/-- (g, outcomes of the framer alone on the stream, `session.errors`, transport closing?,\n'
         '    messages that reached `handle_message`) for a `MessageSession` on a fake transport that\n'
-        '    reports the loss at once (g = 0), 2.5 ms after `close()` (g = 2) or never (g = gNever) -/\n'
-        f'def gNever : Nat := {f["g_never"]}\n'
+        '    reports the loss at once (g = gSoon), 2.5 ms after `close()` (g = gLate) or not before\n'
+        '    `abort()` (g = gNever) -/\n'
         'noncomputable def sessTable : List (Nat × List (Nat × List UInt8 × List UInt8) × Nat × Bool ×\n'
         f'    List (List UInt8 × List UInt8)) := [\n  {sess}]\n'
         '/-- `cost` attributes of BadMagicError, OversizedPayloadError, BadChecksumError\n'
